@@ -82,6 +82,32 @@ pub fn render_nodes_split(nodes: &[Node], indent: usize, out: &mut String, split
     }
 }
 
+/// rewrites `.x` / `..x.y` in `e` to the absolute path they denote inside the scope chain `ctx` (the chain INCLUDING the
+/// declaration that holds the expression)
+fn absolutize(e: &E, ctx: &[String]) -> E {
+    let r = |x: &E| Box::new(absolutize(x, ctx));
+    match e {
+        E::Var(n) if n.starts_with('.') => {
+            let dots = n.chars().take_while(|c| *c == '.').count();
+            if dots <= ctx.len() {
+                let mut p: Vec<String> = ctx[..dots].to_vec();
+                p.push(n[dots..].to_string());
+                E::Var(p.join("."))
+            } else {
+                e.clone()
+            }
+        }
+        E::Un(o, a) => E::Un(*o, r(a)),
+        E::Bin(o, a, b) => E::Bin(*o, r(a), r(b)),
+        E::Tern(a, b, c) => E::Tern(r(a), r(b), r(c)),
+        E::Slice(a, b, c) => E::Slice(r(a), r(b), r(c)),
+        E::SliceShort(a, b) => E::SliceShort(r(a), r(b)),
+        E::Call(f, args) => E::Call(f.clone(), args.iter().map(|a| absolutize(a, ctx)).collect()),
+        E::Block(args) => E::Block(args.iter().map(|a| absolutize(a, ctx)).collect()),
+        other => other.clone(),
+    }
+}
+
 fn defval_to_v(d: &DefVal) -> V {
     match d {
         DefVal::Bool(b) => V::Bool(*b),
@@ -129,7 +155,9 @@ pub fn select_world(nodes: &[Node], defines: &[(String, DefVal)]) -> World {
                         }
                         ctx.truncate(*dots);
                         ctx.push(name.clone());
-                        decl.push((ctx.join("."), e.clone()));
+                        // a relative reference in the initialiser (`.a`, `..b`) means the symbol under the
+                        // enclosing declarations at the point of the constant
+                        decl.push((ctx.join("."), absolutize(e, &ctx)));
                     }
                     Item::Label { dots, name } => {
                         if *dots > ctx.len() {
@@ -282,6 +310,8 @@ struct G {
     dotted_mode: bool,
     cur_global: Option<String>,
     cond_names: Vec<String>,
+    /// v3: global constants named like nested ones (declared at the end of the file)
+    decoys: Vec<(String, E)>,
 }
 
 const CONSTS: &[&str] = &["c0", "c1", "c2", "c3", "c4"];
@@ -331,7 +361,22 @@ fn body(t: &mut Tape, g: &mut G, depth: usize, max: usize) -> Vec<Node> {
                 if g.dotted_mode && depth < 4 {
                     if let Some(par) = g.cur_global.clone() {
                         let name = format!("k{}", g.fresh);
-                        let e = value_for(t, &format!("{}.{}", par, name));
+                        let mut e = value_for(t, &format!("{}.{}", par, name));
+                        // v3: defined through a RELATIVE reference to an earlier sibling constant of the same kind
+                        // (and, half of the time, a global constant of that sibling's bare name with another value)
+                        if crate::engine::gen_version() >= 3 && t.chance(1, 3) {
+                            let full = format!("{}.{}", par, name);
+                            let sib: Vec<String> = g.cond_names.iter().filter(|n| n.starts_with(&format!("{}.", par)) && is_bool_name(n) == is_bool_name(&full)).cloned().collect();
+                            if !sib.is_empty() {
+                                let s = sib[t.below(sib.len())].clone();
+                                let bare = s[par.len() + 1..].to_string();
+                                e = E::Var(format!(".{}", bare));
+                                if t.flip() && !g.decoys.iter().any(|d| d.0 == bare) {
+                                    let dv = if is_bool_name(&full) { E::Bool(t.flip()) } else { lit_of(7 + t.draw(3) as u64) };
+                                    g.decoys.push((bare, dv));
+                                }
+                            }
+                        }
                         g.fresh += 1;
                         g.cond_names.push(format!("{}.{}", par, name));
                         out.push(Node::Item(Item::Const { dots: 1, name: name.clone(), e, noemit: false }));
@@ -400,7 +445,7 @@ fn body(t: &mut Tape, g: &mut G, depth: usize, max: usize) -> Vec<Node> {
 }
 
 pub fn gen_cond(t: &mut Tape) -> (Vec<Node>, Vec<(String, DefVal)>) {
-    let mut g = G { marker: 0, label: 0, declared_consts: vec![], top: vec![], fresh: 0, dotted_mode: t.chance(1, 3), cur_global: None, cond_names: vec![] };
+    let mut g = G { marker: 0, label: 0, declared_consts: vec![], top: vec![], fresh: 0, dotted_mode: t.chance(1, 3), cur_global: None, cond_names: vec![], decoys: vec![] };
     let mut nodes: Vec<Node> = Vec::new();
     // hierarchical constants
     if t.chance(2, 3) {
@@ -449,6 +494,25 @@ pub fn gen_cond(t: &mut Tape) -> (Vec<Node>, Vec<(String, DefVal)>) {
     if g.dotted_mode {
         nodes.push(Node::Item(Item::Label { dots: 0, name: "gtop".into() }));
         g.cur_global = Some("gtop".into());
+        // v3: nested constants at the top level, one defined through a relative reference to the other, read by the
+        // conditions under their absolute names; half of the time a global constant of the same bare name exists too
+        if crate::engine::gen_version() >= 3 && t.chance(1, 2) {
+            let v = t.draw(4) as u64;
+            let first = Node::Item(Item::Const { dots: 1, name: "q1".into(), e: lit_of(v), noemit: false });
+            let second = Node::Item(Item::Const { dots: 1, name: "q3".into(), e: E::Bin(BinOp::Add, Box::new(E::Var(".q1".into())), Box::new(lit_of(t.draw(2) as u64))), noemit: false });
+            if t.flip() {
+                nodes.push(first);
+                nodes.push(second);
+            } else {
+                nodes.push(second);
+                nodes.push(first);
+            }
+            g.cond_names.push("gtop.q1".into());
+            g.cond_names.push("gtop.q3".into());
+            if t.flip() {
+                g.decoys.push(("q1".into(), lit_of(9)));
+            }
+        }
     }
     // v2: a dispatch chain with many arms (`#if sel7 == 0 ... #elif sel7 == 1 ...`), the selected arm anywhere up to
     // the last one or the #else: "exactly the first arm whose condition is true", however far down the chain it is
@@ -504,6 +568,9 @@ pub fn gen_cond(t: &mut Tape) -> (Vec<Node>, Vec<(String, DefVal)>) {
         }
     }
     nodes.extend(tail);
+    for (n, e) in g.decoys.clone() {
+        nodes.push(Node::Item(Item::Const { dots: 0, name: n, e, noemit: false }));
+    }
     // defines
     let mut defs = Vec::new();
     for _ in 0..t.weighted(&[3, 3, 2, 1, 1]) {
@@ -661,6 +728,9 @@ impl Property for C16 {
         let render = || json!({"source": src, "defines": cli, "included_files": inc_files.iter().map(|f| json!({"name": f.0, "text": f.1})).collect::<Vec<_>>()});
         ctx.render(render);
         let world = select_world(&nodes, &defs);
+        if src.lines().any(|l| l.trim_start().starts_with('.') && l.contains(" = .")) {
+            ctx.label("constant-defined-through-a-relative-reference");
+        }
         if src.contains("#elif sel7 == 10") {
             ctx.label("dispatch-chain:11-arms-or-more");
         } else if src.contains("#if sel7 == 0") {
